@@ -301,9 +301,24 @@ class SymRun:
             # the command-level conditional update / delete (dulwich update-ref): a refusal is a ValueError
             "pdelM1": ("remove_if_equals", 0, 1, 1, 0, lambda: self._porc(r, M, None, k[1])),
             "pupdM15": ("set_if_equals", 0, 1, 1, 5, lambda: self._porc(r, M, k[5], k[1])),
+            # the same through the command line (dulwich update-ref [-d] <ref> [<new>] [<old>]), run in-process
+            "cliDelM1": ("remove_if_equals", 0, 1, 1, 0, lambda: self._cli(["-d", M.decode(), k[1].decode()])),
+            "cliUpdM15": ("set_if_equals", 0, 1, 1, 5, lambda: self._cli([M.decode(), k[5].decode(), k[1].decode()])),
             # reset --soft: the branch HEAD points at is moved unconditionally (or the command fails)
             "resetH3": ("set_if_equals", 1, 0, -1, 3, lambda: (__import__("dulwich.porcelain").porcelain.reset(r, "soft", k[3]), 1)[1]),
         }
+
+    def _cli(self, argv):
+        from dulwich.cli import cmd_update_ref
+        cwd = os.getcwd()
+        os.chdir(self.root)            # the command works on "."; every other actor uses absolute paths
+        try:
+            rc = cmd_update_ref().run(argv)
+            return 1 if not rc else 0
+        except (ValueError, SystemExit):
+            return 0
+        finally:
+            os.chdir(cwd)
 
     @staticmethod
     def _porc(r, name, new, old):
@@ -370,7 +385,8 @@ class SymRun:
 def sym_combos(ctx):
     two = [("casH13", "symN"), ("setH4", "symN"), ("commit", "symN"), ("readH", "symN"), ("casH23", "symN"),
            ("casH13", "casM15"), ("commit", "setM5"), ("commit", "commit"), ("link", "symN"), ("casH13", "rmM"),
-           ("setH4", "rmM"), ("pdelM1", "setM5"), ("pdelM1", "casM15"), ("pupdM15", "setM3"), ("pdelM1", "pupdM15"), ("resetH3", "casM15"), ("resetH3", "commit")]
+           ("setH4", "rmM"), ("pdelM1", "setM5"), ("pdelM1", "casM15"), ("pupdM15", "setM3"), ("pdelM1", "pupdM15"), ("resetH3", "casM15"), ("resetH3", "commit"),
+           ("cliDelM1", "setM5"), ("cliDelM1", "casM15"), ("cliUpdM15", "setM3")]
     seq2 = [(("readH",), ("symN", "setM3")), (("readH", "readH"), ("symN", "setN5")), (("casH34",), ("symN", "setM3")),
             (("commit",), ("symN", "setM5")), (("link", "readH"), ("symN", "symM")), (("readH",), ("setM3", "symN"))]
     three = [("casH34", "symN", "setM3"), ("commit", "symN", "casN25"), ("readH", "symN", "setM3"), ("casH13", "symN", "symM"),
